@@ -195,9 +195,9 @@ class ActionConfigFile(Action):
             kwargs = {"env": False, "defaults": False, "_skip_validation": True, "_fail_no_subcommand": False}
             try:
                 cfg_path: Optional[Path] = Path(value, mode=get_config_read_mode())
-            except TypeError as ex_path:
+            except (TypeError, ValueError) as ex_path:  # ValueError: a text that no file system call accepts (embedded null byte)
                 try:
-                    if isinstance(load_value(value), str):
+                    if not isinstance(value, str) or isinstance(load_value(value), str):
                         raise ex_path
                     cfg_path = None
                     cfg_file = parser.parse_string(value, **kwargs)
